@@ -77,10 +77,16 @@ def r1_constructor(ctx):
         an = analyse(ctx, cfg, SMAKE, [], uninterpreted=lambda p: True)
         ip, fn = an.ip, an.fn
         st0, key = A(0), A(1)
-        ent = ('call', 'std::collections::HashMap::<K, V, S, A>::entry', (('fld', st0, 'map'), key))
+        mp = ('fld', st0, 'map')
+        ent = ('call', 'std::collections::HashMap::<K, V, S, A>::entry', (mp, key))
+        getc = ('call', 'std::collections::HashMap::<K, V, S, A>::get', (mp, key))
         kinds = set()
         for o in an.rets:
-            d = o.state.variants.get(ent)
+            # the lookup of the key, through either vocabulary of HashMap: entry(k) (Occupied / Vacant) or get(&k) (Some / None)
+            d = known_variant(ip, o.state, ent) if any(c[0].endswith('HashMap::<K, V, S, A>::entry') for c in o.state.calls) else None
+            if d is None and any(c[0].endswith('HashMap::<K, V, S, A>::get') for c in o.state.calls):
+                g = known_variant(ip, o.state, getc)
+                d = None if g is None else 1 - g
             obj = o.state.frames[0].cells[1].v
             while isinstance(obj, X.Ref):
                 obj = ip.load(o.state, obj.cell, obj.path)
@@ -88,22 +94,30 @@ def r1_constructor(ctx):
             t = ip.to_term(o.state, o.value)
             calls = o.state.calls
             if d == 0:
-                ok = (t[0] == 'call' and t[1].endswith('OccupiedEntry::<\'a, K, V, A>::get') and 'counter' not in ws and
-                      not [c for c in calls if c[0] == 'store::HashConsed::make' or c[0].endswith('::leak')])
+                stored = t[0] == 'call' and t[1].endswith('OccupiedEntry::<\'a, K, V, A>::get') or (t[0] == 'vfld' and t[1] == getc and t[2] == 'Some')
+                ok = (stored and 'counter' not in ws and
+                      not [c for c in calls if c[0] == 'store::HashConsed::make' or c[0].endswith('::leak') or c[0].endswith('::insert')])
                 role = 'occupied-returns-stored-reference-without-allocating'
             elif d == 1:
                 cnt = T.fld(st0, 'counter', 'usize')
                 mk = [c for c in calls if c[0] == 'store::HashConsed::make']
-                ins = [c for c in calls if c[0].endswith("VacantEntry::<'a, K, V, A>::insert")]
+                ins = [c for c in calls if c[0].endswith("VacantEntry::<'a, K, V, A>::insert") or c[0].endswith('HashMap::<K, V, S, A>::insert')]
                 vac = ('vfld', ent, 'Vacant', '0')
-                ok = (len(mk) == 1 and mk[0][1][0] == cnt and mk[0][1][1][0] == 'call' and mk[0][1][1][1].endswith('VacantEntry::<\'a, K, V, A>::key') and mk[0][1][1][2] == (vac,) and
-                      ws.get('counter') == T.mk_add(cnt, I(1)) and len(ins) == 1 and ins[0][1][0] == vac and ins[0][1][1] == calllog.call_term(mk[0]) and t == calllog.call_term(ins[0]))
+                ok = len(mk) == 1 and len(ins) == 1 and mk[0][1][0] == cnt and ws.get('counter') == T.mk_add(cnt, I(1))
+                if ok:
+                    k_ = mk[0][1][1]
+                    newobj = calllog.call_term(mk[0])
+                    if ins[0][0].endswith('VacantEntry::<\'a, K, V, A>::insert'):
+                        ok = (k_[0] == 'call' and k_[1].endswith('VacantEntry::<\'a, K, V, A>::key') and k_[2] == (vac,) and
+                              ins[0][1][0] == vac and ins[0][1][1] == newobj and t == calllog.call_term(ins[0]))
+                    else:
+                        ok = k_ == key and ins[0][1][0] == mp and ins[0][1][1] == key and ins[0][1][2] == newobj and t == newobj
                 role = 'vacant-builds-with-counter-as-id-increments-once-and-stores-under-its-key'
             else:
                 ok, role = False, 'undetermined-entry'
             kinds.add(role)
             ctx.obligation(ok)
-            (ctx.ok if ok else ctx.violation)('C07.R1', 'C07.R1/Store::make/%s' % role, fn.path, fn.site(), {'returned': T.show(t)[:240], 'writes': {k: T.show(v)[:80] for k, v in ws.items()}}, cfg)
+            (ctx.ok if ok else ctx.violation)('C07.R1', 'C07.R1/Store::make/%s' % role, fn.path, fn.site(), {'returned': T.show(t)[:240], 'writes': {k: T.show(v)[:80] for k, v in ws.items()}, 'calls': [T.show(calllog.call_term(c))[:120] for c in calls]}, cfg)
         ok = len(kinds) == 2 and 'undetermined-entry' not in kinds
         ctx.obligation(ok)
         (ctx.ok if ok else ctx.violation)('C07.R1', 'C07.R1/Store::make/both-arms-present', fn.path, fn.site(), {'arms': sorted(kinds)}, cfg)
